@@ -96,7 +96,7 @@ def edit(d, rnd, derived_keys=False):
     d = copy.deepcopy(d)
     kind = rnd.choice(['rename_attr', 'retype_attr', 'reorder_attrs', 'add_attr', 'toggle', 'toggle', 'phrase', 'move_class',
                        'add_enumerator', 'reorder_enumerators', 'add_udt', 'retype_udt', 'to_derived', 'swap_form_part',
-                       'rename_class', 'drop_id', 'add_id', 'add_twin_types', 'renest'])
+                       'rename_class', 'drop_id', 'add_id', 'add_twin_types', 'renest', 'foreign_enum_attr', 'foreign_enum_attr'])
     # (types that share their name with another type are never referred to by name)
     plain = lambda us: [u['n'] for u in us if not u['n'].startswith('Twin')]
     if kind == 'renest':
@@ -114,6 +114,24 @@ def edit(d, rnd, derived_keys=False):
         if p:
             nest[c] = p
         d['nest'] = sorted([k, v] for k, v in nest.items())
+        return d, kind
+    if kind == 'foreign_enum_attr':
+        # a class gets an attribute typed by an enumeration that is packaged in another component (not the class's own, none
+        # above it): the attribute keeps its type although the enumeration is not declared with that component
+        nest = {c: p for c, p in d.get('nest', [])}
+
+        def above(x, fuel=8):
+            return [] if x not in nest or not fuel else [nest[x]] + above(nest[x], fuel - 1)
+        cs = [c for c in d['classes'] if c.get('comp')]
+        if not cs:
+            return None, kind
+        c = rnd.choice(cs)
+        others = [y for y in d['comps'] if y != c['comp'] and y not in above(c['comp'])]
+        if not others:
+            return None, kind
+        n = 'Far%d' % sum(1 for u in d['enums'] if u['n'].startswith('Far'))
+        d['enums'].append({'n': n, 'items': ['NEAR', 'FAR', 'AWAY'][:rnd.randint(1, 3)], 'comp': rnd.choice(others)})
+        c['attrs'].insert(rnd.randint(0, len(c['attrs'])), {'n': 'Kind%d' % len(c['attrs']), 'k': 'base', 'ty': n})
         return d, kind
     if kind == 'add_twin_types':
         # an enumeration and a user-defined type with one name, in any two places: both are declared
